@@ -21,6 +21,8 @@ pub mod divide;
 pub use divide::*;
 pub mod miller;
 pub use miller::*;
+pub mod qsroots;
+pub use qsroots::*;
 pub mod chains;
 pub use chains::*;
 pub mod bnspec;
